@@ -55,9 +55,9 @@ def step (st : St) (line : String) : IO St := do
     let eps : Rat := (n : Rat) * Hex.twoPowNeg 52
     let ok := Hex.rabs (hexR ((kv rest "dot").getD "") - dot) ≤ eps * dotAbs ∧ Hex.rabs (hexR ((kv rest "l1").getD "") - l1) ≤ eps * l1 ∧
               Hex.rabs (hexR ((kv rest "l2sq").getD "") - l2) ≤ eps * l2 ∧ hexR ((kv rest "inf").getD "") == inf ∧ (kv rest "elementwise_ok") == some "1"
-    IO.println s!"SIG vec n={n} threads={(kv rest "threads").getD ""}"
+    IO.println s!"SIG vec n={n} threads={(kv rest "threads").getD ""} shape={(kv rest "shape").getD ""}"
     if !ok then
-      IO.println s!"ORACLE C12 vector kernels at n={n} threads={(kv rest "threads").getD ""} do not equal their mathematical definition to rounding (dot/l1/l2/inf/elementwise)"
+      IO.println s!"ORACLE C12 vector kernels at n={n} threads={(kv rest "threads").getD ""} on a {(kv rest "shape").getD ""} vector (infinity norm reported {(hexR ((kv rest "inf").getD ""))}, exact {inf}) do not equal their mathematical definition to rounding (dot/l1/l2/inf/elementwise)"
       st := { st with oracleFails := st.oracleFails + 1 }
     return { st with vecs := st.vecs + 1, stats := { st.stats with cases := st.stats.cases + 1, checks := st.stats.checks + 1 } }
   | "Switching" :: _ => return st
